@@ -12,6 +12,9 @@ cdef class QuestionHistory:
     @cython.locals(previous_question=cython.tuple)
     cpdef void add_question_at_time(self, DNSQuestion question, double now, cython.set known_answers)
 
+    @cython.locals(previous_question=cython.tuple)
+    cpdef bint touch(self, DNSQuestion question, double now)
+
     @cython.locals(than=double, previous_question=cython.tuple, previous_known_answers=cython.set)
     cpdef bint suppresses(self, DNSQuestion question, double now, cython.set known_answers)
 
